@@ -427,4 +427,143 @@ theorem layoutIndep_of_layoutWF (items : List Item) (h : LayoutWF items = true) 
   have := List.all_eq_true.1 (List.all_eq_true.1 hpe p (List.mem_filter.2 ⟨hp, hpp⟩)) e (List.mem_filter.2 ⟨he, hee⟩)
   simpa using this
 
+/-! ### Comparing a hoisted READ_STATEMENTS list with an EXEC_CLASSES list (used by the driver request `layout-rel`)
+
+`Term` only derives `BEq`; the comparison below is a separate structural equality test with a soundness proof, so
+that a positive answer of the driver is a premise of `layout_rel_sound` (Props/C16.lean). -/
+
+mutual
+def Term.eqb : Term → Term → Bool
+  | .id a, .id b => a == b
+  | .num a, .num b => a == b
+  | .flt a, .flt b => a == b
+  | .chr a, .chr b => a == b
+  | .str a, .str b => a == b
+  | .app f as, .app g bs => f == g && eqbList as bs
+  | .addr a, .addr b => a.eqb b
+  | .ccast s a, .ccast t b => s == t && a.eqb b
+  | .arrow a f, .arrow b g => a.eqb b && f == g
+  | _, _ => false
+def eqbList : List Term → List Term → Bool
+  | [], [] => true
+  | a :: as, b :: bs => a.eqb b && eqbList as bs
+  | _, _ => false
+end
+
+mutual
+theorem Term.eqb_sound : ∀ (t u : Term), t.eqb u = true → t = u
+  | .id a, u, h => by cases u <;> simp_all [Term.eqb]
+  | .num a, u, h => by cases u <;> simp_all [Term.eqb]
+  | .flt a, u, h => by cases u <;> simp_all [Term.eqb]
+  | .chr a, u, h => by cases u <;> simp_all [Term.eqb]
+  | .str a, u, h => by cases u <;> simp_all [Term.eqb]
+  | .app f as, u, h => by
+      cases u with
+      | app g bs =>
+        simp only [Term.eqb, Bool.and_eq_true, beq_iff_eq] at h
+        rw [h.1, eqbList_sound as bs h.2]
+      | _ => simp [Term.eqb] at h
+  | .addr a, u, h => by
+      cases u with
+      | addr b =>
+        simp only [Term.eqb] at h
+        rw [Term.eqb_sound a b h]
+      | _ => simp [Term.eqb] at h
+  | .ccast s a, u, h => by
+      cases u with
+      | ccast t b =>
+        simp only [Term.eqb, Bool.and_eq_true, beq_iff_eq] at h
+        rw [h.1, Term.eqb_sound a b h.2]
+      | _ => simp [Term.eqb] at h
+  | .arrow a f, u, h => by
+      cases u with
+      | arrow b g =>
+        simp only [Term.eqb, Bool.and_eq_true, beq_iff_eq] at h
+        rw [h.2, Term.eqb_sound a b h.1]
+      | _ => simp [Term.eqb] at h
+theorem eqbList_sound : ∀ (ts us : List Term), eqbList ts us = true → ts = us
+  | [], us, h => by cases us <;> simp_all [eqbList]
+  | a :: as, us, h => by
+      cases us with
+      | nil => simp [eqbList] at h
+      | cons b bs =>
+        simp only [eqbList, Bool.and_eq_true] at h
+        rw [Term.eqb_sound a b h.1, eqbList_sound as bs h.2]
+end
+
+mutual
+theorem Term.eqb_refl : ∀ t : Term, t.eqb t = true
+  | .id a => by simp [Term.eqb]
+  | .num a => by simp [Term.eqb]
+  | .flt a => by simp [Term.eqb]
+  | .chr a => by simp [Term.eqb]
+  | .str a => by simp [Term.eqb]
+  | .app f as => by simp [Term.eqb, eqbList_refl as]
+  | .addr a => by simp [Term.eqb, Term.eqb_refl a]
+  | .ccast s a => by simp [Term.eqb, Term.eqb_refl a]
+  | .arrow a f => by simp [Term.eqb, Term.eqb_refl a]
+theorem eqbList_refl : ∀ ts : List Term, eqbList ts ts = true
+  | [] => by simp [eqbList]
+  | a :: as => by simp [eqbList, Term.eqb_refl a, eqbList_refl as]
+end
+
+/-- The inlined declarations of an item list, in order. -/
+def ilDecls : List Item → List (String × String × Term)
+  | [] => []
+  | .decl ty n rhs :: rest => if isILTy ty then (ty, n, rhs) :: ilDecls rest else ilDecls rest
+  | _ :: rest => ilDecls rest
+
+def declsEqb : List (String × String × Term) → List (String × String × Term) → Bool
+  | [], [] => true
+  | (ty, n, r) :: as, (ty', n', r') :: bs => ty == ty' && n == n' && r.eqb r' && declsEqb as bs
+  | _, _ => false
+
+theorem declsEqb_sound : ∀ (as bs : List (String × String × Term)), declsEqb as bs = true → as = bs
+  | [], bs, h => by cases bs <;> simp_all [declsEqb]
+  | (ty, n, r) :: as, bs, h => by
+      cases bs with
+      | nil => simp [declsEqb] at h
+      | cons b bs =>
+        obtain ⟨ty', n', r'⟩ := b
+        simp only [declsEqb, Bool.and_eq_true, beq_iff_eq] at h
+        rw [h.1.1.1, h.1.1.2, Term.eqb_sound r r' h.1.2, declsEqb_sound as bs h.2]
+
+theorem declsEqb_refl : ∀ as : List (String × String × Term), declsEqb as as = true
+  | [] => rfl
+  | (ty, n, r) :: as => by simp [declsEqb, Term.eqb_refl r, declsEqb_refl as]
+
+def optTermEqb : Option Term → Option Term → Bool
+  | none, none => true
+  | some a, some b => a.eqb b
+  | _, _ => false
+
+theorem optTermEqb_sound (a b : Option Term) (h : optTermEqb a b = true) : a = b := by
+  cases a <;> cases b <;> simp_all [optTermEqb]
+  exact Term.eqb_sound _ _ h
+
+/-- The EXEC_CLASSES items are the hoisted READ_STATEMENTS items, as far as `denoteIL` can see: same inlined
+    declarations in the same order, same returned term. -/
+def hoistEqual (rs ec : List Item) : Bool :=
+  declsEqb (ilDecls (hoistPures rs)) (ilDecls ec) && optTermEqb (returned (hoistPures rs)) (returned ec)
+
+/-- `buildEnvIL` only sees the inlined declarations. -/
+def envOfDecls : List (String × String × Term) → Env → Env
+  | [], env => env
+  | (_, n, rhs) :: rest, env => envOfDecls rest ((n, rhs.subst env) :: env)
+
+theorem buildEnvIL_eq_envOfDecls (items : List Item) (env : Env) :
+    buildEnvIL items env = envOfDecls (ilDecls items) env := by
+  induction items generalizing env with
+  | nil => rfl
+  | cons x rest ih =>
+    cases x with
+    | comment s => exact ih env
+    | ret t => exact ih env
+    | decl ty n rhs =>
+      rw [buildEnvIL_decl]
+      simp only [ilDecls]
+      split
+      · exact ih _
+      · exact ih _
+
 end Rzil
